@@ -226,7 +226,8 @@ PTS = ((), (3,), (0, 12))
 
 
 def _check_split(case):
-    width, rate, ivs, oi, pi, flag, npi, ns = case
+    width, rate, ivs, oi, pi, flag, npi, ns = case[:8]
+    off = F(1, 3) if len(case) > 8 and case[8] else F(0)  # entries moved off the sample grid by 1/3 sample
     d = scratch_dir()
     fn = _wavfile(width, rate, "split")
     base = os.path.splitext(os.path.basename(fn))[0]
@@ -234,7 +235,7 @@ def _check_split(case):
     od = os.path.join(d, "c17-out")
     shutil.rmtree(od, ignore_errors=True)
     dur = N / rate
-    E = [(a / rate, b / rate, "L%d" % i) for i, (a, b) in enumerate(ivs)]
+    E = [(float((F(a) + off) / rate), float((F(b) - off) / rate), "L%d" % i) for i, (a, b) in enumerate(ivs)]
     O = [(a / rate, b / rate, "O%d" % i) for i, (a, b) in enumerate(OTHERS[oi])]
     P = [(t / rate, "P%d" % i) for i, t in enumerate(PTS[pi])]
     tg = Textgrid()
@@ -259,11 +260,13 @@ def _check_split(case):
         label = "L%d" % i
         expname = {None: f"{base}_%0{digits}d" % i, "append": f"{base}_%0{digits}d_{label}" % i, "append_no_i": f"{base}_{label}",
                    "label": label}[ns] + ".wav"
-        if name != expname or (rs, re_) != (a / rate, b / rate):
-            viols.append(Viol("split-returned-list", f"{tag}: entry {i}: returned ({rs},{re_},{name!r}), expected ({a / rate},{b / rate},{expname!r})"))
+        if name != expname or (rs, re_) != (E[i][0], E[i][1]):
+            viols.append(Viol("split-returned-list", f"{tag}: entry {i}: returned ({rs},{re_},{name!r}), expected ({E[i][0]},{E[i][1]},{expname!r})"))
             continue
         info = W.read_riff(os.path.join(od, name))
-        if info["samples"] != s[a:b] or (info["channels"], info["width"], info["rate"]) != (1, width, rate):
+        x0, x1 = F(a) + off, F(b) - off
+        okrun = any(info["samples"] == s[i0:j0] for i0 in {math.floor(x0), math.ceil(x0)} for j0 in {math.floor(x1), math.ceil(x1)} if i0 <= j0)
+        if not okrun or (info["channels"], info["width"], info["rate"]) != (1, width, rate):
             viols.append(Viol("split-wav-content", f"{tag}: {name} holds {info['samples']} (width {info['width']} rate {info['rate']}), "
                                                    f"expected source samples {s[a:b]}"))
         if info["declared_data_bytes"] != info["actual_data_bytes"]:
@@ -276,7 +279,7 @@ def _check_split(case):
             except praatfmt.FormatError as e:
                 viols.append(Viol("split-tg-malformed", f"{tag}: {name[:-4]}.TextGrid: {e}"))
                 continue
-            ln = F(b, rate) - F(a, rate)
+            ln = F(E[i][1]) - F(E[i][0])
             if F(dec["xmin"]) != 0 or abs(F(dec["xmax"]) - ln) > F(1, 10 ** 9):
                 viols.append(Viol("split-tg-span", f"{tag}: cropped TextGrid spans ({dec['xmin']},{dec['xmax']}), expected [0,{float(ln)}]"))
             wantnames = ["w", "o", "p"] if flag is True else [flag]
@@ -288,9 +291,9 @@ def _check_split(case):
                 src = {"w": E, "o": O, "p": P}[t["name"]]
                 fe = ival.fentries(src)
                 if t["name"] == "p":
-                    exp, _, _ = ival.crop_points(fe, F(a / rate), F(b / rate), True)
+                    exp, _, _ = ival.crop_points(fe, F(E[i][0]), F(E[i][1]), True)
                 else:
-                    exp, _, _ = ival.crop_intervals(fe, F(a / rate), F(b / rate), mode, True)
+                    exp, _, _ = ival.crop_intervals(fe, F(E[i][0]), F(E[i][1]), mode, True)
                 got = [e for e in t["entries"] if e[-1] != ""]
                 m = ival.compare_entries([tuple(float(v) for v in e[:-1]) + (e[-1],) for e in got], exp, False,
                                          f"cropped TextGrid tier {t['name']!r}")
@@ -351,6 +354,8 @@ def parts(tier):
                                     if quick and flag is False and (oi or pi or npi):
                                         continue
                                     yield (width, rate, ivs, oi, pi, flag, npi, ns)
+                                    if ns is None and all(b - a >= 2 for a, b in ivs):
+                                        yield (width, rate, ivs, oi, pi, flag, npi, ns, True)
 
     def gen_reuse():
         small = [x for x in sets if x and len(x) <= 2]
